@@ -455,11 +455,12 @@ struct Explorer
             if (fresh.empty())
                 break;
             auto sh = sharded("pairs" + std::to_string(level));
+            const std::set<std::string> done_before = paired; // the walk runs later, inside the workers
             sh.walk = [&](mc::Ctx& ctx) {
                 for (auto& a : all)
                     for (auto& b : all)
                     {
-                        if (paired.count(a) && paired.count(b))
+                        if (done_before.count(a) && done_before.count(b))
                             continue;
                         for (const char* code : { "CA", "MA" })
                         {
